@@ -873,7 +873,13 @@ class RedlineEngine:
             ins_id = active_mapper.insertion_enclosing_range(start_idx, start_idx + length)
             if ins_id:
                 logger.info(f"Detected edit inside Insertion ID={ins_id}. Converting to Replace.")
-                ins_nodes = self.doc.element.xpath(f"//w:ins[@w:id='{ins_id}']")
+                # The insertion is looked up in the story the range lies in (ids are unique per part:
+                # a header's insertion must not be searched - or rejected - in the main document).
+                context_span = active_mapper.get_context_at_range(start_idx, start_idx + length)
+                story_root = self.doc.element
+                if context_span is not None and context_span.run is not None:
+                    story_root = context_span.run._element.getroottree().getroot()
+                ins_nodes = self._find_changes("w:ins", ins_id, root=story_root)
                 if not ins_nodes:
                     return False
 
@@ -886,7 +892,7 @@ class RedlineEngine:
                 if r is not None:
                     style_source = Run(r, parent)
 
-                self._reject_change(ins_id)
+                self._reject_change(ins_id, root=story_root)
 
                 if edit.new_text:
                     ins_elem = self.track_insert(edit.new_text, anchor_run=style_source, comment=edit.comment)
@@ -1084,8 +1090,10 @@ class RedlineEngine:
 
         return applied, skipped
 
-    def _find_changes(self, tag: str, target_id: str):
-        return [el for el in self.doc.element.xpath(f"//{tag}") if el.get(qn("w:id")) == target_id]
+    def _find_changes(self, tag: str, target_id: str, root=None):
+        if root is None:
+            root = self.doc.element
+        return [el for el in root.xpath(f".//{tag}") if el.get(qn("w:id")) == target_id]
 
     def _accept_change(self, target_id: str) -> bool:
         ins_nodes = self._find_changes("w:ins", target_id)
@@ -1103,12 +1111,12 @@ class RedlineEngine:
 
         return bool(ins_nodes or del_nodes)
 
-    def _reject_change(self, target_id: str) -> bool:
-        ins_nodes = self._find_changes("w:ins", target_id)
+    def _reject_change(self, target_id: str, root=None) -> bool:
+        ins_nodes = self._find_changes("w:ins", target_id, root=root)
         for ins in ins_nodes:
             ins.getparent().remove(ins)
 
-        del_nodes = self._find_changes("w:del", target_id)
+        del_nodes = self._find_changes("w:del", target_id, root=root)
         for d in del_nodes:
             parent = d.getparent()
             index = parent.index(d)
